@@ -1,7 +1,8 @@
 (* C14: GOAWAY and graceful drain never lose or double-run accepted work.
    Theorems only; each is closed by [exact] of a lemma from proof/GoAway_proofs.v.
-   Client side: the reader machine of model/ClientFrames.v (CF.); server side: the drain machine
-   of model/GoAway.v.  Races between NewStream and GOAWAY inside the Go runtime are sampled by
+   Client side: the reader machine of model/ClientFrames.v (CF.) plus GracefulClose (cstep);
+   server side: the drain machine of model/GoAway.v (with responses that wait for flow-control
+   window).  Races between NewStream and GOAWAY inside the Go runtime are sampled by
    the driver; the theorems cover every order of the atomic steps (any op list). *)
 From Coq Require Import List ZArith Bool.
 From VLib Require Import Codec Machine.
@@ -16,15 +17,27 @@ Open Scope Z_scope.
    reachable again, for any continuation, and every NewStream is refused. *)
 Theorem C14_no_new_after_goaway : forall c id code ops,
   ginv c -> CF.k_mode c <> 2 -> accepted_goaway c id = true ->
-  let c' := fst (CF.step c (CF.OGoAway id code)) in
+  let c' := fst (cstep c (CO (CF.OGoAway id code))) in
   CF.k_goaway c' = true /\ CF.k_mode (creach c' ops) <> 0.
 Proof. exact no_new_after_goaway. Qed.
 Print Assumptions C14_no_new_after_goaway.
 
 Theorem C14_new_stream_refused : forall c dl, ginv c -> CF.k_goaway c = true ->
-  forall e, In e (snd (CF.step c (CF.ONew dl))) -> CF.tag e = 0 -> CF.esid e = -1.
+  forall e, In e (snd (cstep c (CO (CF.ONew dl)))) -> CF.tag e = 0 -> CF.esid e = -1.
 Proof. exact no_new_stream_after_goaway. Qed.
 Print Assumptions C14_new_stream_refused.
+
+(* the same for every transport that is not reachable, e.g. draining after a local GracefulClose
+   (there NewStream waits instead of failing: -2) or closed: no stream is created *)
+Theorem C14_no_new_stream_unless_reachable : forall c dl, CF.k_mode c <> 0 ->
+  forall e, In e (snd (cstep c (CO (CF.ONew dl)))) -> CF.tag e = 0 -> CF.esid e < 0.
+Proof. exact no_new_stream_unless_reachable. Qed.
+Print Assumptions C14_no_new_stream_unless_reachable.
+
+Theorem C14_no_new_after_graceful : forall c ops, ginv c ->
+  CF.k_mode (creach (fst (cstep c CGraceful)) ops) <> 0.
+Proof. exact no_new_after_graceful. Qed.
+Print Assumptions C14_no_new_after_graceful.
 
 (* "streams with id <= N are not failed by the GOAWAY": every stream an accepted GOAWAY(N)
    terminates has id > N (and ends Unavailable, unprocessed). *)
@@ -55,6 +68,33 @@ Theorem C14_second_larger_is_error : forall c id code, CF.k_goaway c = true -> C
 Proof. exact second_larger_is_error. Qed.
 Print Assumptions C14_second_larger_is_error.
 
+(* "later" does not depend on the state in which the first GOAWAY found the transport: every
+   accepted GOAWAY is recorded (t.goAway closed, prevGoAwayID = its id), also when the transport
+   was already draining because of a local GracefulClose ... *)
+Theorem C14_goaway_recorded : forall c id code, CF.k_mode c <> 2 -> accepted_goaway c id = true ->
+  let c' := fst (CF.step c (CF.OGoAway id code)) in
+  CF.k_goaway c' = true /\ CF.k_prev c' = id.
+Proof. exact goaway_recorded. Qed.
+Print Assumptions C14_goaway_recorded.
+
+(* GracefulClose with streams in flight: draining, no stream failed, no GOAWAY recorded *)
+Theorem C14_graceful_spec : forall c, ginv c -> CF.k_mode c = 0 -> CF.any_active c = true ->
+  let r := cstep c CGraceful in
+  CF.k_mode (fst r) = 1 /\ CF.k_goaway (fst r) = false /\ CF.k_prev (fst r) = CF.k_prev c /\
+  CF.k_streams (fst r) = CF.k_streams c /\ snd r = [].
+Proof. exact graceful_spec. Qed.
+Print Assumptions C14_graceful_spec.
+
+(* ... so: streams in flight, GracefulClose, GOAWAY(id), GOAWAY(id2 > id) is the connection error *)
+Theorem C14_larger_after_graceful_is_error : forall c id code id2 code2,
+  ginv c -> CF.k_mode c = 0 -> CF.any_active c = true -> goaway_even id = false -> id < id2 ->
+  let c1 := fst (cstep c CGraceful) in
+  let c2 := fst (cstep c1 (CO (CF.OGoAway id code))) in
+  CF.k_goaway c2 = true /\ CF.k_prev c2 = id /\
+  CF.exec_op c2 (CF.OGoAway id2 code2) = CF.close_conn c2.
+Proof. exact larger_after_graceful_is_error. Qed.
+Print Assumptions C14_larger_after_graceful_is_error.
+
 (* a GOAWAY with a non-zero even last-stream-id is the same connection error *)
 Theorem C14_even_goaway_is_error : forall c id code, 0 < id -> Z.even id = true ->
   CF.exec_op c (CF.OGoAway id code) = CF.close_conn c.
@@ -80,17 +120,37 @@ Print Assumptions C14_server_final_id.
 (* "accepts no stream above it": once draining, no step invokes a handler or adds a stream. *)
 Theorem C14_server_accepts_none_after_final : forall maxs g o, g_reach g = false ->
   let g' := fst (sstep maxs g o) in
-  g_reach g' = false /\ g_handled g' = g_handled g /\ (forall x, In x (g_active g') -> In x (g_active g)).
+  g_reach g' = false /\ g_handled g' = g_handled g /\
+  (forall x, In x (map fst (g_active g')) -> In x (map fst (g_active g))).
 Proof. exact no_accept_after_final. Qed.
 Print Assumptions C14_server_accepts_none_after_final.
 
 (* "serves every stream up to that id to completion": Drain, PING acks, timers and other streams
-   never remove an accepted stream; only its own completion or the client's RST_STREAM does. *)
+   never remove an accepted stream (or change its state); only its own completion or the client's
+   RST_STREAM does ... *)
 Theorem C14_server_serves_all : forall maxs g o sid s, sinv g ->
   In (sid, s) (g_active g) -> o <> SRst sid -> o <> SFinish sid ->
+  (forall n, o <> SWriteFinish sid n) -> (forall inc, o <> SWindow sid inc) ->
   In (sid, s) (g_active (fst (sstep maxs g o))).
 Proof. exact server_serves_all. Qed.
 Print Assumptions C14_server_serves_all.
+
+(* ... and completion means: the step in which an accepted stream leaves t.activeStreams (other
+   than by the client's RST_STREAM) writes its END_STREAM trailers with the grpc-status - also for a
+   stream whose handler returned earlier while the response was waiting for window, also while
+   draining *)
+Theorem C14_server_leaves_only_completed : forall maxs g o sid s, sinv g ->
+  In (sid, s) (g_active g) -> o <> SRst sid ->
+  let r := sstep maxs g o in
+  In sid (map fst (g_active (fst r))) \/ has_trailers (length (snd r)) sid (snd r) = true.
+Proof. exact server_leaves_only_completed. Qed.
+Print Assumptions C14_server_leaves_only_completed.
+
+(* ... and the connection is closed only when t.activeStreams is empty *)
+Theorem C14_server_close_only_when_idle : forall maxs g o, sinv g -> g_closed g = false ->
+  g_closed (fst (sstep maxs g o)) = true -> g_active g = [].
+Proof. exact server_close_only_when_idle. Qed.
+Print Assumptions C14_server_close_only_when_idle.
 
 (* the invariant used above holds in every reachable state of the drain machine *)
 Theorem C14_server_invariant : forall maxs g o, sinv g -> legal g o -> sinv (fst (sstep maxs g o)).
@@ -121,6 +181,21 @@ Example C14_witness :
   Some [[1; 1; 1] ++ handler_event 1 false; [1; 1; 1; 7; 2147483647; 0; 0; 6; 0; 0; 0]; [1; 1; 1; 7; 1; 0; 0];
         [1; 1; 3]; [0; 1; 3; 1; 1; 200; 0; 3; 1; 0; 0]; [0; 1; 3; 8; 0; 0; 0]].
 Proof. vm_compute. reflexivity. Qed.
+
+(* zero stream window: the handler of stream 1 writes 15 bytes and returns; Drain, ack, final
+   GOAWAY(1); the connection stays (2 s); 14 bytes of window are not enough, one more byte lets the
+   response and the status out; the connection is closed one second later *)
+Example C14_witness_blocked_response :
+  run [1; 100; 1] [[1; 1; 0]; [9; 1; 10]; [7]; [8]; [12; 2000]; [10; 1; 14]; [10; 1; 1]; [12; 999]; [12; 1]] =
+  Some [[1; 1; 1] ++ handler_event 1 false; [1; 1; 1; 1; 1; 1200; -1]; [1; 1; 1; 7; 2147483647; 0; 0; 6; 0; 0; 0];
+        [1; 1; 1; 7; 1; 0; 0]; [1; 1; 1]; [1; 1; 1]; [0; 1; 1; 1; 1; -1; 0; 3; 1; 0; 0]; [0; 1; 1]; [0; 1; 1; 8; 0; 0; 0]].
+Proof. vm_compute. reflexivity. Qed.
+
+(* two streams, GracefulClose, (NewStream waits), GOAWAY(1), GOAWAY(3): connection error *)
+Example C14_witness_larger_after_graceful :
+  run [0] [[1; 0]; [1; 0]; [30]; [1; 0]; [7; 1; 0]; [7; 3; 0]] =
+  Some [[0; 1; 0; 0]; [0; 3; 0; 0]; []; [0; -2; 0; 0]; [1; 3; 14; 1]; [1; 1; 14; 0; 8; 0; 0; 0]; []].
+Proof. exact larger_after_graceful_witness. Qed.
 
 (* two streams, GOAWAY(1), GOAWAY(3): the second one closes the connection, stream 1 ends Unavailable *)
 Example C14_witness_second_larger :
